@@ -302,6 +302,8 @@ impl Drop for Node {
                 let r = unsafe { exec_act(a, Some(me)) };
                 w.script_res.push(r);
             }
+            // the field drop glue that follows is library drop logic again
+            unsafe { check_discipline() };
         }
     }
 }
@@ -1295,7 +1297,13 @@ fn run_history(id: &str, mode: &str, body: &str, pad: usize, out: &mut impl Writ
         line.clear();
         let _ = write!(line, "{} ", idx);
         if let Some((k, o)) = w_.fault {
-            let _ = write!(line, "fault #{} {}", k, o);
+            let _ = write!(line, "fault #{} {} ## disc={}", k, o, w_.disciplined as u8);
+            if w_.d4 {
+                line.push_str(" d4=1");
+            }
+            if w_.escaped {
+                line.push_str(" esc=1");
+            }
             let _ = writeln!(out, "{}", line);
             break;
         }
